@@ -317,13 +317,27 @@ def const_val(node):
     return {'kind': 'other', 'v': usrc(node)}
 
 
+RUNTIME = {}
+
+
+def RECONCILE(label, a, a_ok, r, r_ok=True):      # replaced by translate.main with translate.reconcile
+    return a
+
+
 def extract_constants(m):
     out = {'constants': [], 'domainRegex': [], 'dataTypes': []}
 
+    R = RUNTIME.get('constants') or {}
+
     def consts():
-        return [{'name': n, 'val': guarded('constants.' + n, lambda e: {'kind': 'other', 'v': crash(e)},
-                                           const_val, v)}
-                for n, v, _ in bindings(m.tree.body)]
+        res = []
+        for n, v, _ in bindings(m.tree.body):
+            val = guarded('constants.' + n, lambda e: {'kind': 'other', 'v': crash(e)}, const_val, v)
+            r = R.get(n)
+            r_ok = isinstance(r, dict) and r.get('kind') != 'other'
+            val = RECONCILE('constants.' + n, val, val['kind'] != 'other', r if r_ok else None, r_ok)
+            res.append({'name': n, 'val': val})
+        return res
     out['constants'] = guarded('constants', lambda e: [{'name': crash(e), 'val': {'kind': 'other', 'v': ''}}],
                                consts)
 
@@ -342,7 +356,18 @@ def extract_constants(m):
                 pat = v.args[0].value
             res.append([key, pat])
         return res
-    out['domainRegex'] = guarded('domainRegex', lambda e: [[crash(e), '']], regex)
+
+    def regex_rt():
+        try:
+            a = regex()
+        except Exception as e:  # noqa
+            a = [[crash(e), '']]
+        a_ok = all(not str(k).startswith('<unrecognised') and not str(p_).startswith('<unrecognised') and not str(k).startswith('<crash')
+                   for k, p_ in a)
+        r = RUNTIME.get('domain_regex')
+        r_ok = bool(r) and all(p_ is not None for _, p_ in r)
+        return RECONCILE('constants.DOMAIN_REGEX', a, a_ok, r if r_ok else None, r_ok)
+    out['domainRegex'] = guarded('domainRegex', lambda e: [[crash(e), '']], regex_rt)
 
     def dtypes():
         d = find_binding(m.tree.body, 'DATA_TYPES')
@@ -451,10 +476,17 @@ def extract_reply_codes(m):
                     raise NotConst
             except CONST_ERRORS:
                 name = unrec(usrc(nm))
+            rx = (RUNTIME.get('exceptions') or {}).get(n, {})
+            name = RECONCILE('exceptions.%s.name' % n, name, not str(name).startswith('<unrecognised'), rx.get('name'),
+                             isinstance(rx.get('name'), str))
             try:
                 value = int_const(vl)
+                value = RECONCILE('exceptions.%s.value' % n, value, True, rx.get('value'), isinstance(rx.get('value'), int))
             except CONST_ERRORS:
-                value, name = -1, name + ' ' + unrec('value ' + usrc(vl))
+                if isinstance(rx.get('value'), int) and not isinstance(rx.get('value'), bool):
+                    value = RECONCILE('exceptions.%s.value' % n, -1, False, rx.get('value'), True)
+                else:
+                    value, name = -1, name + ' ' + unrec('value ' + usrc(vl))
             out.append({'value': value, 'name': name, 'className': n, 'bases': chain(n)})
         return out
     res['replyCodes'] = guarded('replyCodes', lambda e: [{'value': -1, 'name': crash(e), 'className': '', 'bases': []}],
@@ -473,7 +505,17 @@ def extract_reply_codes(m):
                 key, ref = -1, ref + ' ' + unrec('key ' + (usrc(k) if k is not None else '**'))
             out.append([key, ref])
         return out
-    res['classMapping'] = guarded('classMapping', lambda e: [[-1, crash(e)]], mapping)
+
+    def mapping_rt():
+        try:
+            a = mapping()
+        except Exception as e:  # noqa
+            a = [[-1, crash(e)]]
+        a_ok = all(k != -1 and not str(v).startswith('<') for k, v in a)
+        r = RUNTIME.get('class_mapping')
+        r_ok = bool(r) and all(k is not None and v is not None for k, v in r)
+        return RECONCILE('exceptions.CLASS_MAPPING', a, a_ok, r if r_ok else None, r_ok)
+    res['classMapping'] = guarded('classMapping', lambda e: [[-1, crash(e)]], mapping_rt)
     return res
 
 
